@@ -5,47 +5,118 @@ import (
 
 	"github.com/alephium/wormhole-fork/node/pkg/zzverif"
 	"github.com/ethereum/go-ethereum/common"
+	"github.com/ethereum/go-ethereum/crypto"
 )
 
-// VerifC06: VerifySignatures accepts exactly valid, ordered, in-set signatures.
-func VerifC06_Verify() {
-	n := zzverif.Len("n", 0, 1, 2)
-	k := zzverif.Len("k", 0, 1, 2)
-	v := &VAA{Version: 1, Timestamp: time.Unix(int64(zzverif.U32("ts")), 0), Nonce: zzverif.U32("nonce"), Sequence: zzverif.U64("seq"),
+func verifBodyVAA() *VAA {
+	v := &VAA{Version: 1, GuardianSetIndex: zzverif.U32("gsi"), Timestamp: time.Unix(int64(zzverif.U32("ts")), 0), Nonce: zzverif.U32("nonce"), Sequence: zzverif.U64("seq"),
 		ConsistencyLevel: zzverif.U8("cl"), EmitterChain: ChainID(zzverif.U16("ec")), TargetChain: ChainID(zzverif.U16("tc")),
-		Payload: zzverif.Bytes("payload", 2)}
+		Payload: zzverif.Bytes("payload", zzverif.Len("plen", 1, 2))}
+	copy(v.EmitterAddress[:], zzverif.Bytes("emitter", 32))
+	return v
+}
+
+// C06: VerifySignatures(list) <=> every signature recovers, over THIS VAA's digest, to list[idx], every idx is inside
+// the list and indices strictly increase. Completeness is demanded exactly when no guardian address would be counted
+// twice (lists with repeated addresses: stricter behaviour is allowed, not demanded).
+//
+// Per signature slot the signature bytes are a symbolic selection among: a signature by each member key over the digest,
+// a member signature over ANOTHER digest (body bit flipped), and 65 arbitrary bytes (malformed / outsider / replayed).
+// The guardian index byte of every slot is fully symbolic.
+func VerifC06_Verify() {
+	n := zzverif.Len("n", 0, 1, 2, 3, 4, 19, 255)
+	k := zzverif.Len("k", 0, 1, 2, 3, 4, 5)
+	dup := zzverif.Len("dup", 0, 1) // 1: list[1] repeats list[0]
+	v := verifBodyVAA()
 	addrs := make([]common.Address, n)
+	nk := n
+	if nk > 4 {
+		nk = 4 // distinct honest keys that sign; the remaining list entries are further distinct addresses
+	}
 	for i := range addrs {
 		addrs[i] = common.Address(zzverif.AddrOf(i))
 	}
+	if dup == 1 {
+		zzverif.Assume(n >= 2)
+		addrs[1] = addrs[0]
+	}
 	digest := v.SigningMsg()
-	other := v.SigningMsg()
-	other[0] ^= 1
-	spec := k <= n
-	last := -1
-	signers := make([]int, 0, k)
+	other := digest
+	other[zzverif.U8("flipbyte")%32] ^= 1 << (zzverif.U8("flipbit") % 8)
+
 	for j := 0; j < k; j++ {
-		idx := zzverif.U8("idx")
-		signer := zzverif.Len("signer", 0, 1, 2) // key ids 0..n-1 are members, n.. are outsiders
-		overOther := zzverif.Bool("overOther")
-		var sig []byte
-		if overOther {
-			sig = zzverif.SignBy(signer, other[:])
-		} else {
-			sig = zzverif.SignBy(signer, digest[:])
+		// who produced slot j's signature bytes (shape fork): member key m over the digest (0..nk-1),
+		// member 0 over the other digest (nk), 65 arbitrary bytes (nk+1)
+		sel := zzverif.Len("sel", 0, 1, 2, 3, 4, 5)
+		zzverif.Assume(sel <= nk+1)
+		s := &Signature{Index: zzverif.U8("idx")}
+		switch {
+		case sel < nk:
+			copy(s.Signature[:], zzverif.SignBy(sel, digest[:]))
+		case sel == nk:
+			zzverif.Assume(nk > 0)
+			copy(s.Signature[:], zzverif.SignBy(0, other[:]))
+		default:
+			copy(s.Signature[:], zzverif.Blob("rawsig", 65))
 		}
-		s := &Signature{Index: idx}
-		copy(s.Signature[:], sig)
 		v.Signatures = append(v.Signatures, s)
-		ok := int(idx) < n && int(idx) > last && !overOther && signer == int(idx)
-		spec = spec && ok
-		last = int(idx)
-		signers = append(signers, signer)
+	}
+
+	// reference predicate, computed independently of the implementation's control flow
+	spec := true
+	distinct := true
+	last := -1
+	for j, s := range v.Signatures {
+		idx := int(s.Index)
+		if idx >= n || idx <= last {
+			spec = false
+			break
+		}
+		last = idx
+		pk, err := crypto.Ecrecover(digest[:], s.Signature[:])
+		if err != nil {
+			spec = false
+			break
+		}
+		if common.BytesToAddress(crypto.Keccak256(pk[1:])[12:]) != addrs[idx] {
+			spec = false
+			break
+		}
+		for i := 0; i < j; i++ {
+			if addrs[int(v.Signatures[i].Index)] == addrs[idx] {
+				distinct = false
+			}
+		}
 	}
 	var got bool
 	zzverif.NoPanic(func() { got = v.VerifySignatures(addrs) })
 	zzverif.Assert(!got || spec, "sound")
-	zzverif.Assert(!spec || got, "complete")
+	zzverif.Assert(!(spec && distinct) || got, "complete")
+	if got {
+		zzverif.Reach("accepted")
+	} else {
+		zzverif.Reach("rejected")
+	}
+}
+
+// C06: any change of a body field changes the digest that signatures are checked against, so signatures made for one
+// body never verify another (collision-freeness of Keccak assumed and stated).
+func VerifC06_BodyBound() {
+	v := verifBodyVAA()
+	w := verifBodyVAA()
+	zzverif.Assume(len(v.Payload) == len(w.Payload))
+	sig := zzverif.SignBy(0, func() []byte { d := v.SigningMsg(); return d[:] }())
+	s := &Signature{Index: 0}
+	copy(s.Signature[:], sig)
+	w.Signatures = []*Signature{s}
+	addrs := []common.Address{common.Address(zzverif.AddrOf(0))}
+	dv, dw := v.SigningMsg(), w.SigningMsg()
+	_, _ = dv, dw
+	zzverif.AssumeCollisionFree()
+	got := w.VerifySignatures(addrs)
+	same := v.Timestamp.Unix() == w.Timestamp.Unix() && v.Nonce == w.Nonce && v.Sequence == w.Sequence && v.ConsistencyLevel == w.ConsistencyLevel &&
+		v.EmitterChain == w.EmitterChain && v.TargetChain == w.TargetChain && v.EmitterAddress == w.EmitterAddress && string(v.Payload) == string(w.Payload)
+	zzverif.Assert(!got || same, "signature-bound-to-body")
 	if got {
 		zzverif.Reach("accepted")
 	} else {
